@@ -60,11 +60,61 @@ func (m MetaData) WriteTo(w io.Writer) (int64, error) {
 //   - When reading from a var b []byte, it is preferable to pass a buffer.NewBuffer(b)
 //     as w (see lattigo/utils/buffer/buffer.go).
 func (m *MetaData) ReadFrom(r io.Reader) (int64, error) {
-	p := make([]byte, m.BinarySize())
-	if n, err := io.ReadFull(r, p); err != nil {
-		return int64(n), err
-	} else {
-		return int64(n), m.UnmarshalBinary(p)
+	p, err := readJSONObject(r)
+	if err != nil {
+		return int64(len(p)), err
+	}
+	return int64(len(p)), m.UnmarshalBinary(p)
+}
+
+// readJSONObject reads one JSON object from r, from its opening brace to the matching
+// closing one, and nothing beyond it. The encoding of a metadata has no fixed size
+// (the decimal exponent of a scale can have more than two digits), so it is delimited
+// by its own syntax.
+func readJSONObject(r io.Reader) (p []byte, err error) {
+
+	const maxSize = 1 << 12
+
+	var depth int
+	var inString, escaped bool
+	b := make([]byte, 1)
+
+	for {
+
+		if _, err = io.ReadFull(r, b); err != nil {
+			if err == io.EOF && len(p) > 0 {
+				err = io.ErrUnexpectedEOF
+			}
+			return
+		}
+
+		c := b[0]
+		p = append(p, c)
+
+		switch {
+		case len(p) == 1 && c != '{':
+			return p, fmt.Errorf("invalid metadata encoding: does not start with an opening brace")
+		case escaped:
+			escaped = false
+		case inString:
+			if c == '\\' {
+				escaped = true
+			} else if c == '"' {
+				inString = false
+			}
+		case c == '"':
+			inString = true
+		case c == '{':
+			depth++
+		case c == '}':
+			if depth--; depth == 0 {
+				return
+			}
+		}
+
+		if len(p) >= maxSize {
+			return p, fmt.Errorf("invalid metadata encoding: no end within %d bytes", maxSize)
+		}
 	}
 }
 
@@ -190,12 +240,11 @@ func (m PlaintextMetaData) WriteTo(w io.Writer) (int64, error) {
 //   - When reading from a var b []byte, it is preferable to pass a buffer.NewBuffer(b)
 //     as w (see lattigo/utils/buffer/buffer.go).
 func (m *PlaintextMetaData) ReadFrom(r io.Reader) (int64, error) {
-	p := make([]byte, m.BinarySize())
-	if n, err := io.ReadFull(r, p); err != nil {
-		return int64(n), err
-	} else {
-		return int64(n), m.UnmarshalBinary(p)
+	p, err := readJSONObject(r)
+	if err != nil {
+		return int64(len(p)), err
 	}
+	return int64(len(p)), m.UnmarshalBinary(p)
 }
 
 func (m PlaintextMetaData) MarshalJSON() (p []byte, err error) {
